@@ -21,7 +21,7 @@
 (*     OS only memory that is mapped and holds no live block; ask the OS for memory only    *)
 (*     when the request does not fit into the free space it already holds ...).             *)
 (* TLC checks on small constants that the design preserves every invariant (AllocAbs_MC03, 04). *)
-EXTENDS Integers, Sequences, FiniteSets
+EXTENDS Integers, Sequences, FiniteSets, FiniteSetsExt
 
 CONSTANTS
     Arena,      \* size of the simulated address space in bytes
@@ -80,8 +80,9 @@ SubIv(M, v) ==
 Covered(M, v) == \E m \in M : Inside(v, m)
 Free(M, v) == \A m \in M : ~Overlaps(m, v)
 
-RECURSIVE SumWidth(_)
-SumWidth(M) == IF M = {} THEN 0 ELSE LET m == CHOOSE x \in M : TRUE IN Width(m) + SumWidth(M \ {m})
+\* (FoldSet, not a RECURSIVE operator: TLC passes operator arguments unevaluated, a recursive
+\* sum over a set re-evaluates its argument chain and is exponential beyond ~25 elements)
+SumWidth(M) == FoldSet(LAMBDA m, acc : acc + Width(m), 0, M)
 Footprint == SumWidth(mapped)
 
 -----------------------------------------------------------------------------
@@ -97,8 +98,7 @@ Subject == IF call.op \in {"free", "realloc"} THEN {b \in live : b.id = call.id}
 
 \* demand of one block for the C04 envelope: what a granular allocator may map for it alone
 Pad(size, align) == size + 2 * align + Slack + Gran
-RECURSIVE SumPad(_)
-SumPad(B) == IF B = {} THEN 0 ELSE LET b == CHOOSE x \in B : TRUE IN Pad(b.size, b.align) + SumPad(B \ {b})
+SumPad(B) == FoldSet(LAMBDA b, acc : acc + Pad(b.size, b.align), 0, B)
 
 \* free space the allocator already holds: the largest extent without live block inside one
 \* OS-granted piece (an allocator need not merge separately granted pieces)
